@@ -472,7 +472,7 @@ def run_engine_correspondence(ctx, hostile):
     wrep = c07.model_eval(wl, "drv_text")
     if "0" in wrep:
         raise c07.InfraError("pat.wf = 0 for an accepted pattern (contradicts compileDate_wf / compileDateTime_wf): " + wl[wrep.index("0")])
-    ctx.note("success_value_valid:dtWF-holds", {"patterns": len(wrep), "wf": wrep.count("1"), "segmented(embedded parts, not covered)": wrep.count("-")})
+    ctx.note("success_value_valid:dtWF-holds", {"patterns": len(wrep), "wf": wrep.count("1"), "segWF(embedded parts)": wrep.count("2"), "other": wrep.count("-")})
     for k in ("text.pat.fmt", "text.pat.parse"):
         st = ctx.suites.get(k)
         if st:
